@@ -22,6 +22,7 @@ import (
 	"sort"
 	"strconv"
 	"strings"
+	"time"
 
 	"golang.org/x/crypto/blake2b"
 
@@ -888,15 +889,25 @@ func main() {
 	}
 	var outs []outcome
 	var lines []string
+	timing := map[string]float64{}
 	for _, d := range ds {
 		var o outcome
+		t0 := time.Now()
 		if p := vh.Safely(func() { o = runOne(d) }); p != "" {
 			o = outcome{d: d, class: "harness-panic"}
 			o.prop = append(o.prop, mm(d, "prop", "panic-"+d.kind, "no panic on valid inputs", p, true))
 		}
+		timing[d.kind] += time.Since(t0).Seconds()
 		outs = append(outs, o)
 		lines = append(lines, o.lines...)
 	}
+	if os.Getenv("C09_TIMING") != "" {
+		fmt.Fprintln(os.Stderr, "timing", timing)
+	}
+	if f := os.Getenv("C09_DUMP"); f != "" {
+		os.WriteFile(f, []byte(strings.Join(lines, "\n")+"\n"), 0o644)
+	}
+	tdrv := time.Now()
 	var mout []string
 	if len(lines) > 0 {
 		var err error
@@ -905,6 +916,9 @@ func main() {
 			res.Mismatch(vh.Mismatch{ID: "driver", Kind: "corr", Key: "model-driver-failed", Detail: err.Error(), Case: "(all)", What: "model driver"})
 			mout = nil
 		}
+	}
+	if os.Getenv("C09_TIMING") != "" {
+		fmt.Fprintln(os.Stderr, "driver", time.Since(tdrv).Seconds())
 	}
 	pos := 0
 	for _, o := range outs {
